@@ -213,7 +213,7 @@ PROP = dict(
     theorems=THEOREMS,
     gen=gen_C03,
     inventory=inventory,
-    cfgs_quick=["std-release", "nosimd-release", "nostd-ssse3-release"],
+    cfgs_quick=["std-release", "nosimd-release", "nostd-ssse3-release", "nosimd-debug"],
     cfgs_thorough=list(cclib.NOSTD_CFGS) + ["std-debug", "std-release", "nosimd-debug", "nosimd-release"],
 )
 GENS = {"C03": gen_C03}
